@@ -281,3 +281,30 @@ func CalleeName(c *ssa.CallCommon) string {
 	}
 	return ""
 }
+
+// RetVal resolves result i of a Return: functions with defers spill results into a local cell and return a
+// load of it; the value actually returned is the last store to that cell in the returning block.
+func RetVal(ret *ssa.Return, i int) ssa.Value {
+	v := ret.Results[i]
+	ld, ok := v.(*ssa.UnOp)
+	if !ok || ld.Op != token.MUL {
+		return v
+	}
+	al, ok := ld.X.(*ssa.Alloc)
+	if !ok {
+		return v
+	}
+	var last ssa.Value
+	for _, ins := range ret.Block().Instrs {
+		if ins == ssa.Instruction(ld) {
+			break
+		}
+		if st, ok := ins.(*ssa.Store); ok && st.Addr == ssa.Value(al) {
+			last = st.Val
+		}
+	}
+	if last != nil {
+		return last
+	}
+	return v
+}
